@@ -310,6 +310,28 @@ pub struct VfMutator { inner: usize }
 pub uninterp spec fn vf_mutators_len_spec(m: &VfMutators) -> nat;
 pub uninterp spec fn vf_mutator_spec(m: &VfMutators, i: int) -> VfMutator;
 #[verifier::external_body]
+pub fn vf_mutators_empty() -> (r: VfMutators)
+    ensures vf_mutators_len_spec(&r) == 0
+{ unimplemented!() }
+#[verifier::external_body]
+pub fn vf_mutators_push(m: &mut VfMutators, x: VfMutator)
+    ensures vf_mutators_len_spec(final(m)) == vf_mutators_len_spec(old(m)) + 1,
+        forall|i: int| 0 <= i < vf_mutators_len_spec(old(m)) ==> vf_mutator_spec(final(m), i) == vf_mutator_spec(old(m), i),
+        vf_mutator_spec(final(m), vf_mutators_len_spec(old(m)) as int) == x,
+{ unimplemented!() }
+/// compiler-derived `Default` impls (#[derive(Default)] on Stack and State; the templates require the derives)
+#[verifier::external_body]
+pub fn vf_stack_default() -> (r: Stack)
+    ensures r.inner@.len() == 0
+{ unimplemented!() }
+#[verifier::external_body]
+pub fn vf_state_default() -> (r: State)
+    ensures !r.proto_emitted, r.stack.inner@.len() == 0, r.memo@ == Map::<usize, StackObjectRef>::empty()
+{ unimplemented!() }
+/// f64::clamp(0.0, 1.0): no float arithmetic in Verus; nothing is claimed about the value
+#[verifier::external_body]
+pub fn vf_clamp01(rate: f64) -> (r: f64) { unimplemented!() }
+#[verifier::external_body]
 pub fn vf_mutators_is_empty(m: &VfMutators) -> (r: bool)
     ensures r == (vf_mutators_len_spec(m) == 0)
 { unimplemented!() }
@@ -436,18 +458,19 @@ pub fn vf_u32_to_le_bytes(x: u32) -> (r: [u8; 4])
 pub fn vf_u16_to_le_bytes(x: u16) -> (r: [u8; 2])
     ensures r@[0] as int + 256 * (r@[1] as int) == x
 { unimplemented!() }
-#[verifier::external_body]
-pub fn vf_sat_add_u8(x: u8, y: u8) -> (r: u8)
-    ensures r as int == if x + y > 255 { 255int } else { x + y }
-{ unimplemented!() }
-#[verifier::external_body]
-pub fn vf_sat_add_u16(x: u16, y: u16) -> (r: u16)
-    ensures r as int == if x + y > 65535 { 65535int } else { x + y }
-{ unimplemented!() }
-#[verifier::external_body]
-pub fn vf_min_usize(x: usize, y: usize) -> (r: usize)
-    ensures r == if x <= y { x } else { y }
-{ unimplemented!() }
+// integer helpers the real code does not use today but a maintainer plausibly would (vstd already specifies
+// saturating_*, checked_*, wrapping_*, min, max); stated so such a rewrite stays within the verifier's reach
+pub assume_specification[ usize::abs_diff ](x: usize, y: usize) -> (r: usize)
+    ensures r as int == if x >= y { x - y } else { y - x };
+// capacity of a collection: any value not below its length (it survives clear(): a decision made on it
+// would depend on the generator's history, which is exactly what such a spec lets the verifier see)
+pub assume_specification<K, V, S, A: std::alloc::Allocator>[ HashMap::<K, V, S, A>::capacity ](m: &HashMap<K, V, S, A>) -> (r: usize)
+    ensures r >= m@.len();
+pub assume_specification<T, A: std::alloc::Allocator>[ Vec::<T, A>::capacity ](v: &Vec<T, A>) -> (r: usize)
+    ensures r >= v@.len();
+pub assume_specification[ u32::abs_diff ](x: u32, y: u32) -> (r: u32)
+    ensures r as int == if x >= y { x - y } else { y - x };
+
 #[verifier::external_body]
 pub fn vf_unreachable()
     requires false
@@ -560,10 +583,6 @@ pub fn vf_version_u8(v: Version) -> (r: u8)
     ensures r as int == ver_num(v)
 { unimplemented!() }
 
-#[verifier::external_body]
-pub fn vf_sat_sub_usize(x: usize, y: usize) -> (r: usize)
-    ensures r as int == if x >= y { x - y } else { 0int }
-{ unimplemented!() }
 /// `a.checked_sub(b).ok_or_else(|| eyre!(..))`
 #[verifier::external_body]
 pub fn vf_checked_sub_or_err(a: usize, b: usize) -> (r: Result<usize, VfError>)
